@@ -1160,7 +1160,8 @@ def correspond(ctx, corr):
                  '(the all-float structs of 12 and 16 bytes) vs Model/C06Ret; (8) executed: return type x expression type x boundary values x '
                  'form {parameter, global, member, dereference} x {direct, function pointer} with callers and callees as in (5), stored and '
                  'directly used results; (9) %rax / %xmm0 / %st(0) as a chibicc callee leaves them vs C06_return_extension; (10) assembly '
-                 'callees that leave garbage above the returned type, read by chibicc / gcc / clang callers.')
+                 'callees that leave garbage above the returned type, read by chibicc / gcc / clang callers; (11) `T f(T *p) { return *p; }` '
+                 'for structs / unions of 1..16 bytes placed in the last bytes of a page followed by an unmapped page (no access outside the object).')
     # argument conversions first: cheap, and independent of the signature legs
     A.run_tie(ctx, corr)
     A.run_exec(ctx, corr)
@@ -1170,6 +1171,7 @@ def correspond(ctx, corr):
     R.run_exec(ctx, corr)
     R.run_dump(ctx, corr)
     R.run_stub(ctx, corr)
+    R.run_guard(ctx, corr)
     cases = gen_sigs(ctx)
     # witnesses of the known findings (they must still fail; anything else that fails is new)
     known = known_witnesses()
@@ -1233,6 +1235,8 @@ def search(ctx, broken, corr):
             R.run_dump(ctx, c0)
         if not c0.violations:
             R.run_stub(ctx, c0)
+        if not c0.violations:
+            R.run_guard(ctx, c0)
     finally:
         ctx.thorough = was
     if c0.violations:
@@ -1266,8 +1270,8 @@ def replay(ctx, corr, path):
         R.run_exec(ctx, corr, cases=[R.case_from_payload(payload)])
         print('replay:', 'still fails' if corr.violations else 'the call now passes')
         return
-    if payload.get('mode') in ('retdump', 'retstub'):
-        (R.run_dump if payload['mode'] == 'retdump' else R.run_stub)(ctx, corr)
+    if payload.get('mode') in ('retdump', 'retstub', 'retguard'):
+        {'retdump': R.run_dump, 'retstub': R.run_stub, 'retguard': R.run_guard}[payload['mode']](ctx, corr)
         print('replay:', 'still fails' if corr.violations else 'the probe now passes')
         return
     if payload.get('mode') == 'argdump':
